@@ -144,6 +144,13 @@ def gen(rng, flavour):
         cfg['fn_kind'] = rng.choice(['partial', 'instance', 'plain_iter'])
     if flavour in ('c04', 'c10', 'c11') and rng.random() < 0.15:
         cfg['nest'] = rng.choice(['new', 'new', 'same', 'other'])
+    if flavour == 'c09' and rng.random() < 0.25:
+        for c in calls:
+            if c['cancel'] is None and rng.random() < 0.5:
+                c['forget'] = True
+        cfg['gc_at'] = sorted(rng.choice([0, BT / 4, BT / 2, BT, BT + cfg['bdur'] / 2, BT + cfg['bdur'] + BT / 8]) for _ in range(rng.randint(1, 3)))
+    if flavour == 'c09' and rng.random() < 0.2:
+        cfg['nest_await'] = rng.choice([BT / 4, cfg['bdur'] / 2 + BT / 8, BT + cfg['bdur'] / 2])
     if flavour == 'c11' and cfg['explicit_key'] is True and rng.random() < 0.3:
         cfg['explicit_key'] = 'ci'
     if flavour == 'c11' and cfg['ret'] and rng.random() < 0.3:
@@ -211,6 +218,15 @@ class BatcherHarness:
                             box['nested_left'] -= 1
                             nk = {'new': f'n{u}', 'same': k, 'other': (box['keys'][u % len(box['keys'])] if box['keys'] else k)}[cfg['nest']]
                             box['nested'](nk, 2000 + u)
+                        if cfg.get('nest_await') and box.get('nested_await') is not None and box['nested_left'] > 0 and u % 2 == 0:
+                            # the batch function itself waits (for a while) for another key of its own batcher
+                            box['nested_left'] -= 1
+                            nk = box['keys'][u % len(box['keys'])] if box['keys'] else k
+                            if nk not in {kk for kk, _ in items}:
+                                try:
+                                    await aio.wait_for(box['nested_await'](nk, 3000 + u), cfg['nest_await'])
+                                except (TimeoutError, aio.TimeoutError):
+                                    pass
                         if bh == 'omit':
                             emit('omit', b, k)
                             continue
@@ -376,9 +392,22 @@ class BatcherHarness:
                         nested_tasks.append(aio.ensure_future(call(cid, c, first=False)))
                     box['nested'] = nested
 
+                    def nested_await(nk, cid):
+                        c = {'key': nk, 'beh': 'val', 'how': None, 'cancel': None, 't': 0}
+                        if cfg['explicit_key'] == 'prefixed' and nk.startswith('K'):
+                            c['key'] = nk[1:]
+                        return call(cid, c, first=False)
+                    box['nested_await'] = nested_await
+
                     ts = []
+                    forgotten = [0]
                     for cid, c in enumerate(prog['calls']):
                         tk = aio.ensure_future(call(cid, c))
+                        if c.get('forget'):
+                            # a fire-and-forget caller: nobody keeps its task (asyncio itself only holds tasks weakly)
+                            forgotten[0] += 1
+                            tk.add_done_callback(lambda _t: forgotten.__setitem__(0, forgotten[0] - 1))
+                            continue
                         ts.append(tk)
                         if c['how'] == 'cancel':
                             def do_cancel(tk=tk, cid=cid):
@@ -395,6 +424,11 @@ class BatcherHarness:
                         loop.call_later(mu['t'], mutate)
                     if ts:
                         await aio.wait(ts, timeout=64.0)
+                    tk = None
+                    t_wait = 0.0
+                    while forgotten[0] > 0 and t_wait < 64.0:
+                        await aio.sleep(BT)
+                        t_wait += BT
                     for _ in range(8):           # (a nested request may itself cause further nested requests)
                         todo = [tk for tk in nested_tasks if not tk.done()]
                         if not todo:
@@ -566,7 +600,8 @@ def judge_c04(v: BatView, res: CaseResult, judged=None, tag='C04'):
 def judge_c09(v: BatView, res: CaseResult, prog):
     st = res.stats
     cancelled = {cid for cid, c in enumerate(prog['calls']) if c['cancel'] is not None}
-    bystanders = {cid for cid in v.calls if cid not in cancelled}
+    # (cids from 3000: requests the batch function itself waited for with a timeout - given up like a cancelled caller's)
+    bystanders = {cid for cid in v.calls if cid not in cancelled and not 3000 <= cid < 4000}
     for cid in sorted(bystanders):
         key = v.calls[cid][1][2]
         r = v.rets.get(cid)
